@@ -27,8 +27,11 @@ Definition is_search (x : op) : bool :=
   match x with OFind _ _ _ | OCt _ | OEw _ | OIt _ _ _ _ => true | _ => false end.
 
 Section Refine5.
+(** capacity of the object and of the other object *)
 Variable L : N.
 Hypothesis HL : CapOk L.
+Variable Lo : N.
+Hypothesis HLo : CapOk Lo.
 
 Ltac arith := unfold NPOS, M64 in *; lia.
 
@@ -62,13 +65,17 @@ Ltac fin :=
   rewrite ?abs_take, ?take_carr; rewrite ?take_carr_le by lia; rewrite ?take_all by lia; reflexivity.
 
 Theorem search_refines s o x :
-  Inv L s -> Inv L o -> Bounded x -> CstrsOk x -> FindOk s o x -> is_search x = true ->
+  Inv L s -> Inv Lo o -> Bounded x -> CstrsOk x -> FindOk s o x -> cap_ok (Lo =? L) x = true ->
+  is_search x = true ->
   forall cs' cos' rs, std_step (abs s) (abs o) x = Some (cs', cos', rs) ->
   step L s o x = Ok (s, o, rs) /\ cs' = abs s /\ cos' = abs o.
 Proof.
-  intros Hs Ho HB HC HF Hm cs' cos' rs Hstd.
+  intros Hs Ho HB HC HF Hcap Hm cs' cos' rs Hstd.
   pose proof Hs as (Hb & Hl & Hz). pose proof Ho as (Hbo & Hlo & Hzo). pose proof HL as [HL1 HL2].
-  pose proof (abs_len L s Hs) as Las. pose proof (abs_len L o Ho) as Lao.
+  pose proof HLo as [HLo1 HLo2].
+  pose proof (abs_len L s Hs) as Las. pose proof (abs_len Lo o Ho) as Lao.
+  assert (Hsame : mixed_ok x = false -> Lo = L).
+  { unfold cap_ok in Hcap. destruct (N.eqb_spec Lo L); [auto|]. intros H. congruence. }
   destruct x; try discriminate Hm; clear Hm.
   - (* ends_with *)
     destruct k; unb HB; unfold CstrsOk in HC; cbn [op_cstrs] in HC; dom Hstd;
@@ -93,6 +100,8 @@ Proof.
     + rewrite (contains_ch_refines L HL s ch Hs). reflexivity.
   - (* find family *)
     unfold Bounded in HB. cbn [op_nums] in HB. apply Forall_cons_iff in HB. destruct HB as [Bp HB].
+    assert (Hsm : k = FFs -> Lo = L) by (intros ->; apply Hsame; reflexivity).
+    clear Hsame Hcap.
     assert (Hres : forall r, find_op L s o fam k pos = Ok r -> step L s o (OFind fam k pos) = Ok (s, o, RSize r))
       by (intros r E; cbn [step]; rewrite E; reflexivity).
     destruct fam;
@@ -101,7 +110,8 @@ Proof.
      injection Hstd as <- <- <-; rewrite Las in D;
      apply andb_true_iff in D; destruct D as [D Dpos]; apply andb_true_iff in D; destruct D as [Dn Dk];
      (split; [|split; reflexivity]); apply Hres; clear Hres);
-    destruct k; cbn [fneedle_str fneedle_nums] in *; unfold sz in *;
+    destruct k; try (rewrite (Hsm eq_refl) in *); clear Hsm;
+      cbn [fneedle_str fneedle_nums] in *; unfold sz in *;
       unfold CstrsOk in HC; cbn [op_cstrs] in HC;
       repeat match type of HB with Forall _ (_ :: _) =>
                let B := fresh "B" in apply Forall_cons_iff in HB; destruct HB as [B HB] end;
